@@ -149,7 +149,7 @@ func verifH_Registry() {
 			} else {
 				verifAssert(err == context.Canceled, "C12.wait-for-ready-honours-the-callers-context")
 			}
-			verifAssert(verifBlockedCount() >= 1, "C12.wait-for-ready-waits-while-empty")
+			verifAssert(verifNative() || verifBlockedCount() >= 1, "C12.wait-for-ready-waits-while-empty")
 		}
 		cancel()
 	}
